@@ -169,6 +169,7 @@ func c10runJob(j c10job) (out c10out) {
 	for _, v := range []string{"TCELL_TRUECOLOR", "COLORTERM", "TCELL_ALTSCREEN"} {
 		os.Unsetenv(v)
 	}
+	os.Setenv("LC_ALL", "C.UTF-8")
 	if k, v, ok := strings.Cut(j.Env, "="); ok {
 		os.Setenv(k, v)
 	}
@@ -530,10 +531,28 @@ func C10(r *core.Run) {
 				life++
 			}
 		}
-		if life > 1 && !(len(ms) == 2 && ms[0] == "Fini" && ms[1] == "Fini") {
+		if life > 1 && !(len(ms) == 2 && ms[0] == ms[1]) {
+			// the same lifecycle call from two goroutines at once is allowed (two Fini, two
+			// Suspend/Resume loops): nothing is sequenced wrongly, each call is legal on its own
 			return
 		}
 		jobs = append(jobs, c10job{Idx: len(jobs), Methods: ms, Sim: sim, Iters: iters})
+		usesEncoder := false
+		for _, m := range ms {
+			if m == "CanDisplay" || m == "Show" || m == "Sync" {
+				usesEncoder = true
+			}
+		}
+		if usesEncoder && !sim && len(ms) == 2 {
+			// a locale whose codec keeps state in the encoder object (GB2312 is registered as
+			// HZ-GB2312) and a plain 8-bit one: the screen has one encoder for all callers
+			for _, env := range []string{"LC_ALL=zh_CN.GB2312", "LC_ALL=ru_RU.KOI8-R"} {
+				if env == "LC_ALL=ru_RU.KOI8-R" && !(ms[0] == "CanDisplay" || ms[1] == "CanDisplay") {
+					continue
+				}
+				jobs = append(jobs, c10job{Idx: len(jobs), Methods: ms, Sim: sim, Iters: iters, Env: env})
+			}
+		}
 		if life > 0 && !sim && len(ms) == 2 {
 			// Init and Resume read the environment: the lifecycle pairs also run under each setting
 			for _, env := range []string{"TCELL_TRUECOLOR=disable", "COLORTERM=truecolor", "TCELL_ALTSCREEN=disable"} {
